@@ -12,6 +12,7 @@ package rocsv
 //@   props C18
 //@   binds ctx destination
 //@   calls CompleteWithContext ErrorWithContext NextWithContext Read
+//@   params ctx destination
 //@   track destination.* loop.*
 //@   ensures [end-of-input-completes|C18] res(call.Reader.Read, 1) == global_EOF ==> trace(loop.L0, destination.CompleteWithContext(ctx))
 //@   ensures [a-read-error-is-forwarded|C18] res(call.Reader.Read, 1) != global_EOF ==> trace(loop.L0, destination.ErrorWithContext(ctx, res(call.Reader.Read, 1)))
